@@ -114,6 +114,42 @@ def files_for(m):
     return files
 
 
+EMPTYLIST = "private-type-change-reported:interfaces-listed-with-every-change-beneath-them-filtered"
+
+
+def listed_with_nothing_reportable(cx, m, m2, b1, b2, opts, r):
+    """The recorded reporter defect (C13's 'default mode lists an interface whose changes are all filtered'): the private
+    type's change itself is filtered and not printed, but the functions that reach it are still listed as changed, with an
+    explanation that stops above the private type, and the exit status says 'changed'.  Recognised with the tool's own
+    categorisation: the report has changed functions / variables only, and under none of them is there a node carrying a
+    harmful category without SUPPRESSED / PRIVATE_TYPE."""
+    import re
+    try:
+        rep = R.parse(r.text())
+    except R.ParseError:
+        return False
+    if any(rep.names(k) for k in rep.sections if k not in ("fn_changed", "var_changed")) or rep.soname_changed:
+        return False
+    names = sorted(set(i["name"] for mm in (m, m2) for k, i in M.interfaces(mm)), key=len, reverse=True)
+    listed = []
+    for pretty, linkage in rep.names("fn_changed") + rep.names("var_changed"):
+        listed.append(next((n for n in names if re.search(r"(?<![A-Za-z0-9_])" + re.escape(n) + r"(?![A-Za-z0-9_])", pretty)), None))
+    if not listed or not all(listed):
+        return False
+    if all(pairs.subtree_has_nothing_reportable(cx, b1, b2, opts, n) for n in listed):
+        return True
+    # cyclic types (a redundant sibling stops the propagation of PRIVATE_TYPE_CATEGORY; other instances of the private type's
+    # diff node are not categorised at all): decided on the report itself -- under the listed interfaces there is not one
+    # statement of a change, only the path lines that lead towards the filtered private type
+    body = r.text().split("\n\n", 1)[1] if "\n\n" in r.text() else ""
+    for l in body.split("\n"):
+        t = l.strip()
+        if not t or t.endswith(":") or t == "type size hasn't changed" or "reported earlier" in t or "being reported" in t:
+            continue
+        return False
+    return True
+
+
 def run_case(case, cx):
     m, m2, info, cfg = case["model"], case["mutant"], case["info"], case["cfg"]
     if m2 is None:
@@ -156,6 +192,9 @@ def run_case(case, cx):
     for tag, r in runs.items():
         det2 = dict(det, mode=tag, run=r.brief())
         if private:
+            if r.rc != 0 and listed_with_nothing_reportable(cx, m, m2, b1, b2, opts_of[tag], r):
+                cx.violation(EMPTYLIST, det2)
+                return
             if r.rc != 0:
                 cx.violation("private-type-change-reported:" + tag, det2)
                 return
